@@ -49,12 +49,18 @@ theorem parseIptLine_wft (st st' : PState) (line : Str) (h : parseIptLine st lin
   unfold parseIptLine at h
   split at h
   · injection h with h; rw [← h]; exact hw
-  · injection h with h; rw [← h]; exact WFT_set _ _ _ hw (by simp [keysA])
+  · injection h with h; rw [← h]; exact hw
+  · split at h
+    · exact absurd h (by simp)
+    · injection h with h; rw [← h]; exact WFT_set _ _ _ hw (by simp [keysA])
   · split at h
     · exact absurd h (by simp)
     · split at h
-      · injection h with h; rw [← h]
-        exact WFT_set _ _ _ hw (setA_nodup _ _ _ (getD_nodup _ _ hw))
+      · simp only at h
+        split at h
+        · exact absurd h (by simp)
+        · injection h with h; rw [← h]
+          exact WFT_set _ _ _ hw (setA_nodup _ _ _ (getD_nodup _ _ hw))
       · injection h with h; rw [← h]; exact hw
   · split at h
     · exact absurd h (by simp)
